@@ -34,12 +34,23 @@ def render(g, order):
                 line = '  "p%d_%d": @t%d%s // {optional: true}' % (t, i, to, comma)
             elif how == "or":
                 line = '  "p%d_%d": @t%d | @t%d%s' % (t, i, to, to2, comma)
+            elif how == "ainh":
+                line = '  "p%d_%d": [\n    { // {allOf: "@t%d"}\n      "nk": 1\n    }\n  ]%s' % (t, i, to, comma)
             else:
                 line = '  "p%d_%d": %d%s' % (t, i, i, comma)
             out.append(line)
         out.append("}")
         out.append("")
     return "\n".join(out)
+
+
+def inh_depth(g):
+    """longest chain of inheritance edges (allOf of a type, allOf of an inline array item), cycles cut"""
+    edges = {t: set(ty["bases"]) | {p["to"] for p in ty["props"] if p["how"] == "ainh"} for t, ty in enumerate(g, 1)}
+
+    def dep(t, seen):
+        return max([1 + dep(u, seen | {t}) for u in edges[t] if u not in seen and u != t] + [0])
+    return max(dep(t, frozenset()) for t in edges)
 
 
 def graphs(chk, tier, salt):
@@ -62,6 +73,18 @@ def children_of(js, t):
     if not ut:
         return None
     return [(c.get("key"), c.get("inheritedFrom", "")) for c in (ut["schema"].get("content") or {}).get("children") or []]
+
+
+def item_children(js, t, key):
+    """[(key, inheritedFrom)] of the inline object that is the item of the array property `key` of @t<t>, looked up among
+    the children of the type as the catalog lists them (own and inherited)"""
+    ut = json.loads(js)["userTypes"].get("@t%d" % t)
+    for c in ((ut or {}).get("schema", {}).get("content") or {}).get("children") or []:
+        if c.get("key") == key and not c.get("inheritedFrom"):
+            items = c.get("children") or []
+            if items:
+                return [(x.get("key"), x.get("inheritedFrom", "")) for x in items[0].get("children") or []]
+    return None
 
 
 def run(chk, tier, pid):
@@ -112,7 +135,7 @@ def run(chk, tier, pid):
                 if d:
                     bad = "type graph declared in the order %s instead of 1 2 3 4: %s" % (p, d)
                     sig = {"what": "usedUserTypes-only" if "[only usedUserTypes differ]" in d else d.split(":")[0][:60],
-                           "allof_depth": str(m["depth"]), "msg": (o.get("err") or {}).get("msg", "") + (base.get("err") or {}).get("msg", "")}
+                           "allof_depth": str(max(m["depth"], inh_depth(m["g"]))), "msg": (o.get("err") or {}).get("msg", "") + (base.get("err") or {}).get("msg", "")}
         elif pid == "C12":
             if o["outcome"] not in ("ok", "error"):
                 continue
@@ -126,6 +149,18 @@ def run(chk, tier, pid):
                     if got != want:
                         bad = "children of @t%d differ from the rule: expected %s, observed %s" % (t, want, got)
                         sig = {"what": "inherited properties differ from the rule", "variant": "typegraph"}
+                        break
+                    # inline objects in arrays that inherit: the children of the item are those of the base, marked, then "nk"
+                    for i, p in enumerate(m["g"][t - 1]["props"], 1):
+                        if p["how"] != "ainh":
+                            continue
+                        wantn = [("p%d_%d" % (c["owner"], c["idx"]), "@t%d" % p["to"]) for c in m["props"][p["to"] - 1]] + [("nk", "")]
+                        gotn = item_children(o["json"], t, "p%d_%d" % (t, i))
+                        if gotn != wantn:
+                            bad = "children of the array item of @t%d.p%d_%d (allOf @t%d) differ from the rule: expected %s, observed %s" % (t, t, i, p["to"], wantn, gotn)
+                            sig = {"what": "inherited properties differ from the rule", "variant": "typegraph-array-item"}
+                            break
+                    if bad:
                         break
         if bad:
             chk.violation("%s | document:\n%s" % (bad, text[:1500]),
